@@ -45,7 +45,11 @@ RULE = {
             "foreign-unit frames, lenient-hex look-alikes, valid-LRC frames the decoder rejects) followed by 70+ "
             "valid frames (> 2 maximum-size frames of traffic), one per read / several per read / all in one read; "
             "every frame starting more than 2*513 bytes after the garbage must be delivered and the backlog stay "
-            "<= 513 + read size"),
+            "<= 513 + read size; a_handlers: the REAL sync ModbusSingleRequestHandler (fake serial port) and the asyncio "
+            "datagram handler with the ASCII framer - garbage that makes processIncomingPacket raise (cut-short request with "
+            "matching LRC, undecodable PDU, empty PDU) or not (bad LRC, non-hex, partial), then 70+ valid requests one / "
+            "several per read: every request later than 2*513 bytes after the garbage must be ANSWERED on the port; "
+            "per-read behaviour compared with the reset-on-exception model a_recv_h"),
 }
 TRUSTED = [
     "[tcp/ascii/tls] hand-modelled, tied by correspondence only: bytes.find, slicing with negative indices, "
@@ -62,7 +66,7 @@ TRUSTED = [
 ASSUMPTIONS = [
     "[tcp/ascii/tls] decoder.decode is a function of the PDU bytes (checked: the recording proxy reports any PDU "
     "decoded twice with different outcomes)",
-    "[tcp/ascii/tls] the callback does not raise and does not touch the framer",
+    "[tcp/ascii/tls] the callback does not raise and does not touch the framer (in the a_handlers suite the callback is the real handler.execute)",
 ]
 MANIFEST_PART = {
     "C03": {"text": ("Socket/ASCII/TLS half: Coq theorems (Props/C03_tcpascii.v) over the models instantiated with "
@@ -100,7 +104,9 @@ MANIFEST_PART = {
                      "synchronised AND delivers all of them unless it raises (C11_recover_ascii_partial; C11_recover_ascii with the handler "
                      "reset, no hypothesis). Garbage prefixes of eight kinds followed by 70+ valid frames are "
                      "replayed against the code: every frame later than two maximum-size frames after the garbage must "
-                     "be delivered, backlog bounded."),
+                     "be delivered, backlog bounded - at the bare framer AND through the real serial-style handlers "
+                     "(sync ModbusSingleRequestHandler, asyncio datagram handler), where every such request must be "
+                     "answered and the per-read behaviour equals the reset-on-exception model a_recv_h."),
             "note": ("Open: a valid-LRC frame whose PDU the decoder rejects stays buffered forever at the bare framer "
                      "(C11_ascii_stuck_refuted) - the only hypothesis of C11_recover_ascii_partial.")},
 }
@@ -926,6 +932,195 @@ def suite_resync(tier):
     return Suite("a_resync", IMPORTS, "chk_c11", cases, shard=8)
 
 
+# ----------------------------------------------------------------------------- C11 through the real serial-style handlers
+
+def drive_handler(frontend, uid, reads):
+    """Drive the REAL handler (sync ModbusSingleRequestHandler on a fake serial port / asyncio datagram handler)
+    with the ASCII framer.  Returns (observations per read, decode table, answered deliveries, escaped)."""
+    import asyncio
+    import types
+    import warnings
+    from pymodbus.factory import ServerDecoder
+    from pymodbus.framer.ascii_framer import ModbusAsciiFramer
+    from props import lib_server
+    lib_server.reset_mcb()
+    context, _units = lib_server.mk_context(False, [(uid, "ok")])
+    dec = RecDecoder(ServerDecoder())
+    server = types.SimpleNamespace(context=context, framer=ModbusAsciiFramer, decoder=dec, threads=[],
+                                   ignore_missing_slaves=False, broadcast_enable=False, active_connections={})
+    obs, answered, escaped = [], [], []
+    cur = {"ds": [], "exc": None, "pending": None}
+
+    def hook(h):
+        real_pip = h.framer.processIncomingPacket
+        real_exec = h.execute
+
+        def pip(*a, **kw):
+            try:
+                return real_pip(*a, **kw)
+            except Exception as e:  # noqa: BLE001 — observation; re-raised unchanged for the handler to deal with
+                cur["exc"] = pyexn(e)
+                raise
+        h.framer.processIncomingPacket = pip
+
+        def execute(request, *addr):
+            key, _ = dec.objs.get(id(request), (b"\xff\xff", None))
+            d = (key, int(request.transaction_id), int(request.protocol_id), int(request.unit_id))
+            cur["ds"].append(d)
+            cur["pending"] = d
+            try:
+                return real_exec(request, *addr)
+            finally:
+                cur["pending"] = None
+        h.execute = execute
+
+    def wrote(_data):
+        if cur["pending"] is not None:
+            answered.append(cur["pending"])
+
+    def snapshot(h):
+        obs.append({"ds": cur["ds"], "exc": cur["exc"], "buf": bytes(h.framer._buffer), "hdr": view_header("ascii", h.framer._header)})
+        cur["ds"], cur["exc"] = [], None
+
+    try:
+        if frontend == "sync_serial":
+            from pymodbus.server import sync
+            h = sync.ModbusSingleRequestHandler.__new__(sync.ModbusSingleRequestHandler)
+            state = {"n": 0}
+
+            class Port:
+                def recv(self, n):
+                    if state["n"] > 0:
+                        snapshot(h)             # the previous read has been handled (incl. the except block)
+                    if state["n"] < len(reads):
+                        state["n"] += 1
+                        return reads[state["n"] - 1]
+                    h.running = False
+                    return b""
+
+                def send(self, data):
+                    wrote(data)
+                    return len(data)
+            h.request, h.client_address, h.server = Port(), ("serial", 0), server
+            h.setup()
+            hook(h)
+            try:
+                h.handle()
+            except Exception as e:  # noqa: BLE001 — an exception escaping handle() ends the serial server
+                escaped.append(pyexn(e) if pyexn(e) != "OtherExc" else type(e).__name__)
+            h.finish()
+        else:
+            from pymodbus.server import async_io as aio
+
+            class T:
+                def get_extra_info(self, k):
+                    return ("127.0.0.1", 5020)
+
+                def sendto(self, data, addr=None):
+                    wrote(data)
+
+                def write(self, data):
+                    wrote(data)
+
+                def close(self):
+                    pass
+
+            async def main():
+                with warnings.catch_warnings():
+                    warnings.simplefilter("ignore")
+                    h = aio.ModbusDisconnectedRequestHandler(server)
+                    h.connection_made(T())
+                hook(h)
+                for rd in reads:
+                    h.datagram_received(rd, ("127.0.0.1", 40000))
+                    for _ in range(4):
+                        await asyncio.sleep(0)
+                    if h.handler_task is None or h.handler_task.done():
+                        escaped.append("handler-task-ended")
+                        break
+                    snapshot(h)
+                h.connection_lost(None)
+                await asyncio.sleep(0)
+                if h.handler_task is not None and h.handler_task.done() and not h.handler_task.cancelled():
+                    h.handler_task.exception()
+            asyncio.run(main())
+    finally:
+        lib_server.reset_mcb()
+    return obs, dec.table, answered, escaped, not dec.inconsistent
+
+
+RAISING_GARBAGE = ["cutshort", "undecodable", "emptypdu", "badlrc", "nonhex", "partial", "printable"]
+
+
+def handler_garbage(r, uid, kindsel):
+    if kindsel == "cutshort":      # a request cut short whose LRC still matches: the server decoder raises struct.error
+        return adu("ascii", (0, 0, uid, r.choice([bytes([3]), bytes([3, 0]), bytes([6, 0, 1, 0]), bytes([16, 0, 0, 0, 1, 2, 0])])))
+    if kindsel == "undecodable":
+        return adu("ascii", (0, 0, uid, r.choice([bytes([1, 0, 0]), bytes([5, 0]), bytes([22, 0, 1])])))
+    if kindsel == "emptypdu":      # ':<uid><lrc>' — an empty PDU: IndexError in the decoder
+        return adu("ascii", (0, 0, uid, b""))
+    if kindsel == "nonhex":
+        return b":" + bytes(r.choice(b"GHXYZ xyz+-") for _ in range(r.choice([4, 8, 14]))) + b"\r\n"
+    return garbage(r, "server", uid, kindsel)
+
+
+def suite_handlers(tier):
+    """garbage that makes the ASCII framer raise (and garbage that does not), then 70+ valid requests one / several
+    per read, through the real sync serial handler and the asyncio datagram handler"""
+    from pymodbus.register_read_message import ReadHoldingRegistersRequest, ReadInputRegistersRequest
+    from pymodbus.register_write_message import WriteSingleRegisterRequest, WriteMultipleRegistersRequest
+    from pymodbus.bit_read_message import ReadCoilsRequest
+    r = common.rng("a_handlers")
+    cases = []
+    reps = 3 if tier == "quick" else 12
+    for frontend in ("sync_serial", "aio_udp"):
+        for gk in RAISING_GARBAGE:
+            for rep in range(reps):
+                for mode in ("one-per-read", "several-per-read"):
+                    uid = r.choice([1, 17, 247])
+                    g = b"".join(handler_garbage(r, uid, gk if i == 0 else r.choice(RAISING_GARBAGE)) for i in range(r.choice([1, 1, 2])))
+                    frames, total = [], 0
+                    while total < 2 * 513 + 150 or len(frames) < 70:
+                        m = r.choice([ReadHoldingRegistersRequest(r.randrange(8), 1 + r.randrange(2)), ReadInputRegistersRequest(0, 1),
+                                      WriteSingleRegisterRequest(r.randrange(9), r.randrange(65536)), ReadCoilsRequest(0, 8),
+                                      WriteMultipleRegistersRequest(r.randrange(7), [r.randrange(65536) for _ in range(r.choice([1, 2]))]),
+                                      ReadHoldingRegistersRequest(50, 2)])          # the last one is answered with an exception response
+                        f = (0, 0, uid, pdu_of(m))
+                        frames.append(f)
+                        total += len(adu("ascii", f))
+                    adus = [adu("ascii", f) for f in frames]
+                    if mode == "one-per-read":
+                        reads = list(adus)
+                    else:
+                        reads, i = [], 0
+                        while i < len(adus):
+                            k = r.choice([1, 2, 3, 5])
+                            reads.append(b"".join(adus[i:i + k]))
+                            i += k
+                    glue = frontend == "sync_serial" and r.random() < 0.3
+                    chunks = [g + reads[0]] + reads[1:] if glue else [g] + reads
+                    obs, tbl, answered, escaped, ok = drive_handler(frontend, uid, chunks)
+                    fr, dec = mk_framer("ascii", "server")
+                    for f in frames:
+                        if f[3] not in tbl:
+                            try:
+                                dec.decode(f[3])
+                            except Exception:  # noqa: BLE001
+                                pass
+                            tbl[f[3]] = dec.table[f[3]]
+                    term = "(%s, %s, %s, %s, %s, %s, %s)" % (cfg_term([uid], False), table_term(tbl), z(len(g)),
+                                                             lst(frame_term(f) for f in frames), lst(hx(c) for c in chunks),
+                                                             lst(obs_term(o) for o in obs) if obs else "(@nil obs)",
+                                                             lst(deliv_term(d) for d in answered) if answered else "(@nil delivery)")
+                    desc = {"frontend": frontend, "framer": "ascii", "uid": uid, "garbage": g.hex(), "garbage_kind": gk, "mode": mode,
+                            "glued": glue, "chunks": [c.hex() for c in chunks], "requests": len(frames), "reads_handled": len(obs),
+                            "delivered": sum(len(o["ds"]) for o in obs), "answered": len(answered),
+                            "raised_in_framer": [o["exc"] for o in obs if o["exc"]][:3], "escaped_handler": escaped,
+                            "decoder_consistent": ok}
+                    cases.append(Case(term, desc, kind="%s:%s:%s" % (frontend, gk, mode), nontrivial=len(answered) > 0))
+    return Suite("a_handlers", IMPORTS, "chk_c11h", cases, shard=6)
+
+
 # ----------------------------------------------------------------------------- contract
 
 def suites_for(pid, tier):
@@ -936,7 +1131,7 @@ def suites_for(pid, tier):
     if pid == "C07":
         return [suite_corrupt(tier), suite_lenfield(tier)]
     if pid == "C11":
-        return [suite_resync(tier)]
+        return [suite_resync(tier), suite_handlers(tier)]
     return []
 
 
@@ -983,6 +1178,8 @@ def classify_for(pid, suite, desc):
             return "F-C07-tcp-wrong-length-pdu-accepted"
         return None          # the former region (_process(error=True)) is fixed
     if pid == "C11":
+        if suite == "a_handlers":
+            return None          # through the handlers (reset on exception) nothing is known to fail
         if desc.get("excs"):
             return "F-C11-ascii-undecodable-frame-stuck"
         return None
